@@ -496,7 +496,14 @@ func (w *World) staleLines(text string) string {
 		w.Rng.Read(sig)
 		sb.WriteString(w.WitKey.SigLine(ref.AlgEd25519, sig))
 	}
-	sb.WriteString(w.WitKey.SignCosigV1(text, 1600000000))
+	if w.Rng.Intn(2) == 0 {
+		sb.WriteString(w.WitKey.SignCosigV1(text, 1600000000)) // a genuine, old cosignature of this witness
+	} else {
+		// a line under the witness' cosignature/v1 key id that does not verify
+		sig := make([]byte, 72)
+		w.Rng.Read(sig)
+		sb.WriteString(w.WitKey.SigLine(ref.AlgCosigV1, sig))
+	}
 	return sb.String()
 }
 
